@@ -1,13 +1,16 @@
 import NanoVerif.Proofs.SolverSkeleton
 import NanoVerif.Proofs.SolverAlgebra
+import NanoVerif.Proofs.SolverNM
 /-!
   C02 — every solver returns an honest, self-consistent result within bounded budget: the property theorems about the
   shared skeleton (`solver_t::done`, the loop of the line-search solvers, `update_if_better` / `value_test`, the generic
   non-monotonic loop, the call counters).
 
-  The 35+3 solver bodies are NOT modelled one by one: what each of them hands to `update_if_better` / `done` is the
-  hypothesis of the theorems about `nmLoop` (`hstep`) and is monitored at run time against the wrapper's evaluation log.
-  Termination of the bodies and the numerical value of the per-iteration evaluation bound `K` are observed, not proved.
+  The iteration bodies of sgm, cocob, sda, wda, pgm, dgm, fgm, asga2, asga4, osga (`Model/SolverNM.lean`) are in the model: for them the hypotheses of the skeleton
+  theorems (`hstep`, `hK`) are discharged here, for every objective, every parameter value and every start. For the other
+  solver bodies what each hands to `update_if_better` / `done` is the hypothesis of the theorems about `nmLoop` (`hstep`) and is
+  monitored at run time against the wrapper's evaluation log; termination of the bodies and the numerical value of their
+  per-iteration evaluation bound `K` are observed, not proved.
 -/
 namespace NanoVerif.Solver
 open NanoVerif.Gen.DoneLogic
@@ -185,6 +188,332 @@ theorem best_value_nonincreasing (env : Env α) (step : Nat → Nat × Nat → B
 
 end field
 
+
+/-! ### the modelled non-monotonic bodies (`Model/SolverNM.lean`): the hypotheses of the skeleton theorems discharged
+
+  For every objective `f` (an arbitrary function `Vec α → α × Vec α`), every value of the solver's parameters (no domain
+  restriction is needed), every start `x0`, every `epsilon`, `max_evals`, `patience` and any number of iterations (`fuel`). -/
+section modelled
+variable {α : Type} [Add α] [Sub α] [Mul α] [Div α] [Neg α] [LT α] [LE α] [DecidableLT α] [DecidableLE α] [∀ n, OfNat α n]
+
+/-- sgm (sgm.cpp): every triple handed to `update_if_better` is `(x, ∇f(x), f(x))` at the point `x` the recurrence produced, so the
+    returned `(x, gx, fx)` is an evaluation of `f`; one iteration makes exactly one `vgrad(x, g)` (2 evaluations) or none, so the
+    reported evaluations stay below `max_evals + 2`; the status is one of the three -/
+theorem sgm_honest (env : Env α) (nm : EnvNM α) (f : Objective α) (power : α) (patience : Nat) (eps : α)
+    (maxEvals fuel : Nat) (x0 : Vec α) :
+    (∀ c m, ∀ cand ∈ (sgmBody env nm (fun _ => f) power c m).cands, cand.2.2 = (f cand.1).1 ∧ cand.2.1 = (f cand.1).2) ∧
+    ((sgmMinimize env nm (fun _ => f) power patience eps maxEvals fuel x0).st.fx =
+        (f (sgmMinimize env nm (fun _ => f) power patience eps maxEvals fuel x0).st.x).1 ∧
+      (sgmMinimize env nm (fun _ => f) power patience eps maxEvals fuel x0).st.gx =
+        (f (sgmMinimize env nm (fun _ => f) power patience eps maxEvals fuel x0).st.x).2) ∧
+    (1 ≤ maxEvals → evals (sgmMinimize env nm (fun _ => f) power patience eps maxEvals fuel x0).st < maxEvals + 2) ∧
+    ((sgmMinimize env nm (fun _ => f) power patience eps maxEvals fuel x0).st.status = Status.max_iters ∨
+      (sgmMinimize env nm (fun _ => f) power patience eps maxEvals fuel x0).st.status = Status.converged ∨
+      (sgmMinimize env nm (fun _ => f) power patience eps maxEvals fuel x0).st.status = Status.failed) :=
+  ⟨sgmBody_cands env nm f power,
+   nmMinimize_honest env f _ _ patience eps maxEvals 2 fuel x0 (sgmBody_cands env nm f power)
+    (fun c m => (sgmBody_evals env nm _ power c m).1) (Nat.le_refl 2)⟩
+
+/-- sgm reports `converged` only through its two documented tests: `value_test(patience) < epsilon` on the history of the
+    returned state, or a gradient with `‖g‖∞ < numeric_limits::epsilon()` at the current iterate of some iteration `k` -/
+theorem sgm_converged_only_by_test (env : Env α) (nm : EnvNM α) (F : ObjectiveI α) (power : α) (patience : Nat) (eps : α)
+    (maxEvals fuel : Nat) (x0 : Vec α)
+    (h : (sgmMinimize env nm F power patience eps maxEvals fuel x0).st.status = Status.converged) :
+    valueTest env patience (sgmMinimize env nm F power patience eps maxEvals fuel x0) < eps ∨
+    ∃ k, infNorm (memAt (sgmBody env nm F power) (sgmInit F x0) 1 k).1.g < nm.epsMach := by
+  obtain ⟨k, hk | ⟨_, hk⟩⟩ := nmMinimize_converged env _ _ patience eps maxEvals fuel _
+    (by rw [initBState_status]; decide) h
+  · exact Or.inr ⟨k, (sgmBody_evals env nm F power _ _).2.2.1.mp hk⟩
+  · exact Or.inl hk
+
+/-- cocob (cocob.cpp): as `sgm_honest`; every iteration makes exactly one `vgrad(x, gx)`: 2 evaluations -/
+theorem cocob_honest (env : Env α) (nm : EnvNM α) (f : Objective α) (l0 : α) (patience : Nat) (eps : α)
+    (maxEvals fuel : Nat) (x0 : Vec α) :
+    (∀ c m, ∀ cand ∈ (cocobBody env nm (fun _ => f) x0 c m).cands, cand.2.2 = (f cand.1).1 ∧ cand.2.1 = (f cand.1).2) ∧
+    ((cocobMinimize env nm (fun _ => f) l0 patience eps maxEvals fuel x0).st.fx =
+        (f (cocobMinimize env nm (fun _ => f) l0 patience eps maxEvals fuel x0).st.x).1 ∧
+      (cocobMinimize env nm (fun _ => f) l0 patience eps maxEvals fuel x0).st.gx =
+        (f (cocobMinimize env nm (fun _ => f) l0 patience eps maxEvals fuel x0).st.x).2) ∧
+    (1 ≤ maxEvals → evals (cocobMinimize env nm (fun _ => f) l0 patience eps maxEvals fuel x0).st < maxEvals + 2) ∧
+    ((cocobMinimize env nm (fun _ => f) l0 patience eps maxEvals fuel x0).st.status = Status.max_iters ∨
+      (cocobMinimize env nm (fun _ => f) l0 patience eps maxEvals fuel x0).st.status = Status.converged ∨
+      (cocobMinimize env nm (fun _ => f) l0 patience eps maxEvals fuel x0).st.status = Status.failed) :=
+  ⟨cocobBody_cands env nm f x0,
+   nmMinimize_honest env f _ _ patience eps maxEvals 2 fuel x0 (cocobBody_cands env nm f x0)
+    (fun c m => Nat.le_of_eq (cocobBody_evals env nm _ x0 c m).1) (Nat.le_refl 2)⟩
+
+/-- cocob reports `converged` only through `value_test(patience) < epsilon` on the history of the returned state -/
+theorem cocob_converged_only_by_test (env : Env α) (nm : EnvNM α) (F : ObjectiveI α) (l0 : α) (patience : Nat) (eps : α)
+    (maxEvals fuel : Nat) (x0 : Vec α)
+    (h : (cocobMinimize env nm F l0 patience eps maxEvals fuel x0).st.status = Status.converged) :
+    valueTest env patience (cocobMinimize env nm F l0 patience eps maxEvals fuel x0) < eps := by
+  obtain ⟨k, hk | ⟨_, hk⟩⟩ := nmMinimize_converged env _ _ patience eps maxEvals fuel _
+    (by rw [initBState_status]; decide) h
+  · rw [(cocobBody_evals env nm F x0 _ _).2.1] at hk; cases hk
+  · exact hk
+
+/-- sda and wda (pdsgm.cpp; `wda = false / true`): as `sgm_honest` -/
+theorem pdsgm_honest (env : Env α) (nm : EnvNM α) (f : Objective α) (wda : Bool) (D : α) (patience : Nat) (eps : α)
+    (maxEvals fuel : Nat) (x0 : Vec α) :
+    (∀ c m, ∀ cand ∈ (pdsgmBody env nm (fun _ => f) wda D x0 c m).cands, cand.2.2 = (f cand.1).1 ∧ cand.2.1 = (f cand.1).2) ∧
+    ((pdsgmMinimize env nm (fun _ => f) wda D patience eps maxEvals fuel x0).st.fx =
+        (f (pdsgmMinimize env nm (fun _ => f) wda D patience eps maxEvals fuel x0).st.x).1 ∧
+      (pdsgmMinimize env nm (fun _ => f) wda D patience eps maxEvals fuel x0).st.gx =
+        (f (pdsgmMinimize env nm (fun _ => f) wda D patience eps maxEvals fuel x0).st.x).2) ∧
+    (1 ≤ maxEvals → evals (pdsgmMinimize env nm (fun _ => f) wda D patience eps maxEvals fuel x0).st < maxEvals + 2) ∧
+    ((pdsgmMinimize env nm (fun _ => f) wda D patience eps maxEvals fuel x0).st.status = Status.max_iters ∨
+      (pdsgmMinimize env nm (fun _ => f) wda D patience eps maxEvals fuel x0).st.status = Status.converged ∨
+      (pdsgmMinimize env nm (fun _ => f) wda D patience eps maxEvals fuel x0).st.status = Status.failed) :=
+  ⟨pdsgmBody_cands env nm f wda D x0,
+   nmMinimize_honest env f _ _ patience eps maxEvals 2 fuel x0 (pdsgmBody_cands env nm f wda D x0)
+    (fun c m => (pdsgmBody_evals env nm _ wda D x0 c m).1) (Nat.le_refl 2)⟩
+
+/-- sda / wda report `converged` only through `value_test(patience) < epsilon` on the history of the returned state, or a
+    gradient with `‖g‖∞ < numeric_limits::epsilon()` at the current iterate of some iteration `k` -/
+theorem pdsgm_converged_only_by_test (env : Env α) (nm : EnvNM α) (F : ObjectiveI α) (wda : Bool) (D : α) (patience : Nat)
+    (eps : α) (maxEvals fuel : Nat) (x0 : Vec α)
+    (h : (pdsgmMinimize env nm F wda D patience eps maxEvals fuel x0).st.status = Status.converged) :
+    valueTest env patience (pdsgmMinimize env nm F wda D patience eps maxEvals fuel x0) < eps ∨
+    ∃ k, infNorm (memAt (pdsgmBody env nm F wda D x0) (pdsgmInit F x0) 1 k).1.gx < nm.epsMach := by
+  obtain ⟨k, hk | ⟨_, hk⟩⟩ := nmMinimize_converged env _ _ patience eps maxEvals fuel _
+    (by rw [initBState_status]; decide) h
+  · exact Or.inr ⟨k, (pdsgmBody_evals env nm F wda D x0 _ _).2.2.1.mp hk⟩
+  · exact Or.inl hk
+
+/-- pgm (universal.cpp): only an accepted trial `(xk1, ∇f(xk1), f(xk1))` of the inner line search is handed to `update_if_better`, so the
+    returned triple is an evaluation of `f`; one iteration makes at most `lsearch_max_iters` calls `vgrad(xk1, gxk1)`, so the reported
+    evaluations stay below `max_evals + 2·lsearch_max_iters` (registered domain of `lsearch_max_iters`: [10, 100]); the status is one
+    of the three -/
+theorem pgm_honest (env : Env α) (f : Objective α) (l0 : α) (lsmax patience : Nat) (eps : α)
+    (maxEvals fuel : Nat) (x0 : Vec α) (hls : 1 ≤ lsmax) :
+    (∀ c m, ∀ cand ∈ (pgmBody env (fun _ => f) eps lsmax c m).cands, cand.2.2 = (f cand.1).1 ∧ cand.2.1 = (f cand.1).2) ∧
+    ((pgmMinimize env (fun _ => f) l0 lsmax patience eps maxEvals fuel x0).st.fx = (f (pgmMinimize env (fun _ => f) l0 lsmax patience eps maxEvals fuel x0).st.x).1 ∧
+      (pgmMinimize env (fun _ => f) l0 lsmax patience eps maxEvals fuel x0).st.gx = (f (pgmMinimize env (fun _ => f) l0 lsmax patience eps maxEvals fuel x0).st.x).2) ∧
+    (∀ (F : ObjectiveI α) c m, (pgmBody env F eps lsmax c m).nf + (pgmBody env F eps lsmax c m).ng ≤ 2 * lsmax) ∧
+    (1 ≤ maxEvals → evals (pgmMinimize env (fun _ => f) l0 lsmax patience eps maxEvals fuel x0).st < maxEvals + 2 * lsmax) ∧
+    ((pgmMinimize env (fun _ => f) l0 lsmax patience eps maxEvals fuel x0).st.status = Status.max_iters ∨
+      (pgmMinimize env (fun _ => f) l0 lsmax patience eps maxEvals fuel x0).st.status = Status.converged ∨
+      (pgmMinimize env (fun _ => f) l0 lsmax patience eps maxEvals fuel x0).st.status = Status.failed) :=
+  ⟨pgmBody_cands env f eps lsmax,
+   (nmMinimize_honest env f _ _ patience eps maxEvals (2 * lsmax) fuel x0 (pgmBody_cands env f eps lsmax)
+    (fun c m => (pgmBody_evals env _ eps lsmax c m).1) (by omega)).1,
+   fun F c m => (pgmBody_evals env F eps lsmax c m).1,
+   (nmMinimize_honest env f _ _ patience eps maxEvals (2 * lsmax) fuel x0 (pgmBody_cands env f eps lsmax)
+    (fun c m => (pgmBody_evals env _ eps lsmax c m).1) (by omega)).2⟩
+
+/-- pgm reports `converged` only through `value_test(patience) < epsilon` on the history of the returned state (an iteration
+    whose line search fails hands `converged = false` to `done`) -/
+theorem pgm_converged_only_by_test (env : Env α) (F : ObjectiveI α) (l0 : α) (lsmax patience : Nat) (eps : α)
+    (maxEvals fuel : Nat) (x0 : Vec α)
+    (h : (pgmMinimize env F l0 lsmax patience eps maxEvals fuel x0).st.status = Status.converged) :
+    valueTest env patience (pgmMinimize env F l0 lsmax patience eps maxEvals fuel x0) < eps := by
+  obtain ⟨k, hk | ⟨_, hk⟩⟩ := nmMinimize_converged env _ _ patience eps maxEvals fuel _
+    (by rw [initBState_status]; decide) h
+  · exact absurd hk (pgmBody_evals env F eps lsmax _ _).2
+  · exact hk
+
+/-- dgm (universal.cpp): as `pgm_honest`; one trial is `vgrad(xk1, gxk1)` plus, when that value is finite, the value-only `vgrad(yk)`:
+    at most `3·lsearch_max_iters` evaluations per iteration -/
+theorem dgm_honest (env : Env α) (f : Objective α) (l0 : α) (lsmax patience : Nat) (eps : α)
+    (maxEvals fuel : Nat) (x0 : Vec α) (hls : 1 ≤ lsmax) :
+    (∀ c m, ∀ cand ∈ (dgmBody env (fun _ => f) eps lsmax c m).cands, cand.2.2 = (f cand.1).1 ∧ cand.2.1 = (f cand.1).2) ∧
+    ((dgmMinimize env (fun _ => f) l0 lsmax patience eps maxEvals fuel x0).st.fx = (f (dgmMinimize env (fun _ => f) l0 lsmax patience eps maxEvals fuel x0).st.x).1 ∧
+      (dgmMinimize env (fun _ => f) l0 lsmax patience eps maxEvals fuel x0).st.gx = (f (dgmMinimize env (fun _ => f) l0 lsmax patience eps maxEvals fuel x0).st.x).2) ∧
+    (∀ (F : ObjectiveI α) c m, (dgmBody env F eps lsmax c m).nf + (dgmBody env F eps lsmax c m).ng ≤ 3 * lsmax) ∧
+    (1 ≤ maxEvals → evals (dgmMinimize env (fun _ => f) l0 lsmax patience eps maxEvals fuel x0).st < maxEvals + 3 * lsmax) ∧
+    ((dgmMinimize env (fun _ => f) l0 lsmax patience eps maxEvals fuel x0).st.status = Status.max_iters ∨
+      (dgmMinimize env (fun _ => f) l0 lsmax patience eps maxEvals fuel x0).st.status = Status.converged ∨
+      (dgmMinimize env (fun _ => f) l0 lsmax patience eps maxEvals fuel x0).st.status = Status.failed) :=
+  ⟨dgmBody_cands env f eps lsmax,
+   (nmMinimize_honest env f _ _ patience eps maxEvals (3 * lsmax) fuel x0 (dgmBody_cands env f eps lsmax)
+    (fun c m => (dgmBody_evals env _ eps lsmax c m).1) (by omega)).1,
+   fun F c m => (dgmBody_evals env F eps lsmax c m).1,
+   (nmMinimize_honest env f _ _ patience eps maxEvals (3 * lsmax) fuel x0 (dgmBody_cands env f eps lsmax)
+    (fun c m => (dgmBody_evals env _ eps lsmax c m).1) (by omega)).2⟩
+
+/-- dgm reports `converged` only through `value_test(patience) < epsilon` on the history of the returned state (an iteration
+    whose line search fails hands `converged = false` to `done`) -/
+theorem dgm_converged_only_by_test (env : Env α) (F : ObjectiveI α) (l0 : α) (lsmax patience : Nat) (eps : α)
+    (maxEvals fuel : Nat) (x0 : Vec α)
+    (h : (dgmMinimize env F l0 lsmax patience eps maxEvals fuel x0).st.status = Status.converged) :
+    valueTest env patience (dgmMinimize env F l0 lsmax patience eps maxEvals fuel x0) < eps := by
+  obtain ⟨k, hk | ⟨_, hk⟩⟩ := nmMinimize_converged env _ _ patience eps maxEvals fuel _
+    (by rw [initBState_status]; decide) h
+  · exact absurd hk (dgmBody_evals env F eps lsmax _ _).2
+  · exact hk
+
+/-- fgm (universal.cpp): as `pgm_honest`, the candidate is `(yk1, ∇f(yk1), f(yk1))`; one trial is `vgrad(xk1, gxk1)` and
+    `vgrad(yk1, gyk1)`: at most `4·lsearch_max_iters` evaluations per iteration -/
+theorem fgm_honest (env : Env α) (f : Objective α) (l0 : α) (lsmax patience : Nat) (eps : α)
+    (maxEvals fuel : Nat) (x0 : Vec α) (hls : 1 ≤ lsmax) :
+    (∀ c m, ∀ cand ∈ (fgmBody env (fun _ => f) eps lsmax c m).cands, cand.2.2 = (f cand.1).1 ∧ cand.2.1 = (f cand.1).2) ∧
+    ((fgmMinimize env (fun _ => f) l0 lsmax patience eps maxEvals fuel x0).st.fx = (f (fgmMinimize env (fun _ => f) l0 lsmax patience eps maxEvals fuel x0).st.x).1 ∧
+      (fgmMinimize env (fun _ => f) l0 lsmax patience eps maxEvals fuel x0).st.gx = (f (fgmMinimize env (fun _ => f) l0 lsmax patience eps maxEvals fuel x0).st.x).2) ∧
+    (∀ (F : ObjectiveI α) c m, (fgmBody env F eps lsmax c m).nf + (fgmBody env F eps lsmax c m).ng ≤ 4 * lsmax) ∧
+    (1 ≤ maxEvals → evals (fgmMinimize env (fun _ => f) l0 lsmax patience eps maxEvals fuel x0).st < maxEvals + 4 * lsmax) ∧
+    ((fgmMinimize env (fun _ => f) l0 lsmax patience eps maxEvals fuel x0).st.status = Status.max_iters ∨
+      (fgmMinimize env (fun _ => f) l0 lsmax patience eps maxEvals fuel x0).st.status = Status.converged ∨
+      (fgmMinimize env (fun _ => f) l0 lsmax patience eps maxEvals fuel x0).st.status = Status.failed) :=
+  ⟨fgmBody_cands env f eps lsmax,
+   (nmMinimize_honest env f _ _ patience eps maxEvals (4 * lsmax) fuel x0 (fgmBody_cands env f eps lsmax)
+    (fun c m => (fgmBody_evals env _ eps lsmax c m).1) (by omega)).1,
+   fun F c m => (fgmBody_evals env F eps lsmax c m).1,
+   (nmMinimize_honest env f _ _ patience eps maxEvals (4 * lsmax) fuel x0 (fgmBody_cands env f eps lsmax)
+    (fun c m => (fgmBody_evals env _ eps lsmax c m).1) (by omega)).2⟩
+
+/-- fgm reports `converged` only through `value_test(patience) < epsilon` on the history of the returned state (an iteration
+    whose line search fails hands `converged = false` to `done`) -/
+theorem fgm_converged_only_by_test (env : Env α) (F : ObjectiveI α) (l0 : α) (lsmax patience : Nat) (eps : α)
+    (maxEvals fuel : Nat) (x0 : Vec α)
+    (h : (fgmMinimize env F l0 lsmax patience eps maxEvals fuel x0).st.status = Status.converged) :
+    valueTest env patience (fgmMinimize env F l0 lsmax patience eps maxEvals fuel x0) < eps := by
+  obtain ⟨k, hk | ⟨_, hk⟩⟩ := nmMinimize_converged env _ _ patience eps maxEvals fuel _
+    (by rw [initBState_status]; decide) h
+  · exact absurd hk (fgmBody_evals env F eps lsmax _ _).2
+  · exact hk
+
+/-- asga2 (asga.cpp): the triple handed to `update_if_better` after the inner loop is `(xk1, ∇f(xk1), f(xk1))` of its last trial
+    (`lsearch_max_iters ≥ 1`; registered domain [10, 1000]), so the returned triple is an evaluation of `f`; one trial is `vgrad(yk, gyk)`
+    and `vgrad(xk1, gxk1)`: at most `4·lsearch_max_iters` evaluations per iteration; the status is one of the three -/
+theorem asga2_honest (env : Env α) (nm : EnvNM α) (f : Objective α) (miu l0 gamma1 gamma2 : α) (lsmax patience : Nat) (eps : α)
+    (maxEvals fuel : Nat) (x0 : Vec α) (hls : 1 ≤ lsmax) :
+    (∀ c m, ∀ cand ∈ (asga2Body env (fun _ => f) eps miu gamma1 gamma2 lsmax x0 c m).cands,
+      cand.2.2 = (f cand.1).1 ∧ cand.2.1 = (f cand.1).2) ∧
+    ((asga2Minimize env nm (fun _ => f) miu l0 gamma1 gamma2 lsmax patience eps maxEvals fuel x0).st.fx = (f (asga2Minimize env nm (fun _ => f) miu l0 gamma1 gamma2 lsmax patience eps maxEvals fuel x0).st.x).1 ∧
+      (asga2Minimize env nm (fun _ => f) miu l0 gamma1 gamma2 lsmax patience eps maxEvals fuel x0).st.gx = (f (asga2Minimize env nm (fun _ => f) miu l0 gamma1 gamma2 lsmax patience eps maxEvals fuel x0).st.x).2) ∧
+    (∀ (F : ObjectiveI α) c m, (asga2Body env F eps miu gamma1 gamma2 lsmax x0 c m).nf +
+      (asga2Body env F eps miu gamma1 gamma2 lsmax x0 c m).ng ≤ 4 * lsmax) ∧
+    (1 ≤ maxEvals → evals (asga2Minimize env nm (fun _ => f) miu l0 gamma1 gamma2 lsmax patience eps maxEvals fuel x0).st < maxEvals + 4 * lsmax) ∧
+    ((asga2Minimize env nm (fun _ => f) miu l0 gamma1 gamma2 lsmax patience eps maxEvals fuel x0).st.status = Status.max_iters ∨
+      (asga2Minimize env nm (fun _ => f) miu l0 gamma1 gamma2 lsmax patience eps maxEvals fuel x0).st.status = Status.converged ∨
+      (asga2Minimize env nm (fun _ => f) miu l0 gamma1 gamma2 lsmax patience eps maxEvals fuel x0).st.status = Status.failed) := by
+  have h := nmMinimize_honest env f (asga2Body env (fun _ => f) eps miu gamma1 gamma2 lsmax x0) (asga2Init env l0 x0) patience eps
+    maxEvals (4 * lsmax) fuel x0 (asga2Body_cands env f eps miu gamma1 gamma2 lsmax x0 hls)
+    (fun c m => (asga2Body_evals env _ eps miu gamma1 gamma2 lsmax x0 c m).1) (by omega)
+  refine ⟨asga2Body_cands env f eps miu gamma1 gamma2 lsmax x0 hls, ?_,
+    fun F c m => (asga2Body_evals env F eps miu gamma1 gamma2 lsmax x0 c m).1, ?_, ?_⟩
+  · unfold asga2Minimize; split
+    · exact initBState_eval f x0
+    · exact h.1
+  · unfold asga2Minimize; split
+    · intro h1; rw [initBState_evals]; omega
+    · exact h.2.1
+  · unfold asga2Minimize; split
+    · exact Or.inl rfl
+    · exact h.2.2
+
+/-- asga2 reports `converged` only through `value_test(patience) < epsilon` on the history of the returned state (the early
+    `return state` at a stationary start leaves the status `max_iters`) -/
+theorem asga2_converged_only_by_test (env : Env α) (nm : EnvNM α) (F : ObjectiveI α) (miu l0 gamma1 gamma2 : α)
+    (lsmax patience : Nat) (eps : α) (maxEvals fuel : Nat) (x0 : Vec α)
+    (h : (asga2Minimize env nm F miu l0 gamma1 gamma2 lsmax patience eps maxEvals fuel x0).st.status = Status.converged) :
+    valueTest env patience (asga2Minimize env nm F miu l0 gamma1 gamma2 lsmax patience eps maxEvals fuel x0) < eps := by
+  unfold asga2Minimize at h ⊢
+  split at h
+  · rw [initBState_status] at h; cases h
+  · rename_i hg
+    rw [if_neg hg]
+    obtain ⟨k, hk | ⟨_, hk⟩⟩ := nmMinimize_converged env _ _ patience eps maxEvals fuel _
+      (by rw [initBState_status]; decide) h
+    · rw [(asga2Body_evals env F eps miu gamma1 gamma2 lsmax x0 _ _).2] at hk; cases hk
+    · exact hk
+
+/-- asga4 (asga.cpp): as `asga2_honest`, the candidate is `(yk1, ∇f(yk1), f(yk1))` -/
+theorem asga4_honest (env : Env α) (nm : EnvNM α) (f : Objective α) (miu l0 gamma1 gamma2 : α) (lsmax patience : Nat) (eps : α)
+    (maxEvals fuel : Nat) (x0 : Vec α) (hls : 1 ≤ lsmax) :
+    (∀ c m, ∀ cand ∈ (asga4Body env (fun _ => f) eps miu gamma1 gamma2 lsmax x0 c m).cands,
+      cand.2.2 = (f cand.1).1 ∧ cand.2.1 = (f cand.1).2) ∧
+    ((asga4Minimize env nm (fun _ => f) miu l0 gamma1 gamma2 lsmax patience eps maxEvals fuel x0).st.fx = (f (asga4Minimize env nm (fun _ => f) miu l0 gamma1 gamma2 lsmax patience eps maxEvals fuel x0).st.x).1 ∧
+      (asga4Minimize env nm (fun _ => f) miu l0 gamma1 gamma2 lsmax patience eps maxEvals fuel x0).st.gx = (f (asga4Minimize env nm (fun _ => f) miu l0 gamma1 gamma2 lsmax patience eps maxEvals fuel x0).st.x).2) ∧
+    (∀ (F : ObjectiveI α) c m, (asga4Body env F eps miu gamma1 gamma2 lsmax x0 c m).nf +
+      (asga4Body env F eps miu gamma1 gamma2 lsmax x0 c m).ng ≤ 4 * lsmax) ∧
+    (1 ≤ maxEvals → evals (asga4Minimize env nm (fun _ => f) miu l0 gamma1 gamma2 lsmax patience eps maxEvals fuel x0).st < maxEvals + 4 * lsmax) ∧
+    ((asga4Minimize env nm (fun _ => f) miu l0 gamma1 gamma2 lsmax patience eps maxEvals fuel x0).st.status = Status.max_iters ∨
+      (asga4Minimize env nm (fun _ => f) miu l0 gamma1 gamma2 lsmax patience eps maxEvals fuel x0).st.status = Status.converged ∨
+      (asga4Minimize env nm (fun _ => f) miu l0 gamma1 gamma2 lsmax patience eps maxEvals fuel x0).st.status = Status.failed) := by
+  have h := nmMinimize_honest env f (asga4Body env (fun _ => f) eps miu gamma1 gamma2 lsmax x0) (asga4Init env l0 x0) patience eps
+    maxEvals (4 * lsmax) fuel x0 (asga4Body_cands env f eps miu gamma1 gamma2 lsmax x0 hls)
+    (fun c m => (asga4Body_evals env _ eps miu gamma1 gamma2 lsmax x0 c m).1) (by omega)
+  refine ⟨asga4Body_cands env f eps miu gamma1 gamma2 lsmax x0 hls, ?_,
+    fun F c m => (asga4Body_evals env F eps miu gamma1 gamma2 lsmax x0 c m).1, ?_, ?_⟩
+  · unfold asga4Minimize; split
+    · exact initBState_eval f x0
+    · exact h.1
+  · unfold asga4Minimize; split
+    · intro h1; rw [initBState_evals]; omega
+    · exact h.2.1
+  · unfold asga4Minimize; split
+    · exact Or.inl rfl
+    · exact h.2.2
+
+/-- asga4 reports `converged` only through `value_test(patience) < epsilon` on the history of the returned state (the early
+    `return state` at a stationary start leaves the status `max_iters`) -/
+theorem asga4_converged_only_by_test (env : Env α) (nm : EnvNM α) (F : ObjectiveI α) (miu l0 gamma1 gamma2 : α)
+    (lsmax patience : Nat) (eps : α) (maxEvals fuel : Nat) (x0 : Vec α)
+    (h : (asga4Minimize env nm F miu l0 gamma1 gamma2 lsmax patience eps maxEvals fuel x0).st.status = Status.converged) :
+    valueTest env patience (asga4Minimize env nm F miu l0 gamma1 gamma2 lsmax patience eps maxEvals fuel x0) < eps := by
+  unfold asga4Minimize at h ⊢
+  split at h
+  · rw [initBState_status] at h; cases h
+  · rename_i hg
+    rw [if_neg hg]
+    obtain ⟨k, hk | ⟨_, hk⟩⟩ := nmMinimize_converged env _ _ patience eps maxEvals fuel _
+      (by rw [initBState_status]; decide) h
+    · rw [(asga4Body_evals env F eps miu gamma1 gamma2 lsmax x0 _ _).2] at hk; cases hk
+    · exact hk
+
+/-- osga (osga.cpp): the pair handed to `update_if_better(xb_hat, fb_hat)` is the best of `x`, `x_prime` (both evaluated in this
+    iteration) and the previous best `xb` — always a point with ITS value of `f` (the stored gradient stays the one of the start:
+    `update_if_better(x, fx)` does not change it); so the returned value is `f` at the returned point and the returned gradient
+    is the gradient at `x0`; one iteration is `vgrad(x, g)` and the value-only `vgrad(x_prime)`: 3 evaluations; the status is one
+    of the three -/
+theorem osga_honest (env : Env α) (nm : EnvNM α) (f : Objective α) (miu lambda alphaMax kappaP kappa : α) (patience : Nat) (eps : α)
+    (maxEvals fuel : Nat) (x0 : Vec α) :
+    ((osgaMinimize env nm (fun _ => f) miu lambda alphaMax kappaP kappa patience eps maxEvals fuel x0).st.fx = (f (osgaMinimize env nm (fun _ => f) miu lambda alphaMax kappaP kappa patience eps maxEvals fuel x0).st.x).1 ∧
+      (osgaMinimize env nm (fun _ => f) miu lambda alphaMax kappaP kappa patience eps maxEvals fuel x0).st.gx = (f x0).2) ∧
+    (∀ (F : ObjectiveI α) z0 g0 c m, (osgaBody env nm F eps miu lambda alphaMax kappaP kappa z0 g0 c m).nf +
+      (osgaBody env nm F eps miu lambda alphaMax kappaP kappa z0 g0 c m).ng ≤ 3) ∧
+    (1 ≤ maxEvals → evals (osgaMinimize env nm (fun _ => f) miu lambda alphaMax kappaP kappa patience eps maxEvals fuel x0).st < maxEvals + 3) ∧
+    ((osgaMinimize env nm (fun _ => f) miu lambda alphaMax kappaP kappa patience eps maxEvals fuel x0).st.status = Status.max_iters ∨
+      (osgaMinimize env nm (fun _ => f) miu lambda alphaMax kappaP kappa patience eps maxEvals fuel x0).st.status = Status.converged ∨
+      (osgaMinimize env nm (fun _ => f) miu lambda alphaMax kappaP kappa patience eps maxEvals fuel x0).st.status = Status.failed) := by
+  refine ⟨?_, fun F z0 g0 c m => (osgaBody_evals env nm F eps miu lambda alphaMax kappaP kappa z0 g0 c m).1, fun h1 => ?_, ?_⟩
+  · exact nmMinimize_inv_mem env (fun m => m.fb = (f m.xb).1) (fun x gx fx => fx = (f x).1 ∧ gx = (f x0).2) _ _ patience eps
+      maxEvals fuel _ ⟨rfl, rfl⟩ rfl
+      (fun c m hm => osgaBody_cands env nm f eps miu lambda alphaMax kappaP kappa x0 (f x0).2 c m hm)
+  · apply nmMinimize_budget env _ _ patience eps maxEvals 3 fuel _
+      (fun c m => (osgaBody_evals env nm _ eps miu lambda alphaMax kappaP kappa x0 _ c m).1)
+    rw [initBState_evals]; omega
+  · exact nmMinimize_tri env _ _ patience eps maxEvals fuel _ (Or.inl rfl)
+
+/-- osga reports `converged` only through its documented tests: `value_test(patience) < epsilon` on the history of the returned
+    state, `eta_hat < epsilon` in some iteration `k`, or a gradient at the start with `‖g‖∞ < epsilon0` -/
+theorem osga_converged_only_by_test (env : Env α) (nm : EnvNM α) (F : ObjectiveI α) (miu lambda alphaMax kappaP kappa : α)
+    (patience : Nat) (eps : α) (maxEvals fuel : Nat) (x0 : Vec α)
+    (h : (osgaMinimize env nm F miu lambda alphaMax kappaP kappa patience eps maxEvals fuel x0).st.status = Status.converged) :
+    valueTest env patience (osgaMinimize env nm F miu lambda alphaMax kappaP kappa patience eps maxEvals fuel x0) < eps ∨
+    infNorm (F 0 x0).2 < nm.eps0 ∨
+    ∃ k, (osgaIter env F miu (osgaQ0 env nm x0) x0
+      (memAt (osgaBody env nm F eps miu lambda alphaMax kappaP kappa x0 (F 0 x0).2) (osgaInit env nm F miu alphaMax x0) 1 k).2
+      (memAt (osgaBody env nm F eps miu lambda alphaMax kappaP kappa x0 (F 0 x0).2) (osgaInit env nm F miu alphaMax x0) 1 k).1).etaHat
+        < eps := by
+  obtain ⟨k, hk | ⟨_, hk⟩⟩ := nmMinimize_converged env _ _ patience eps maxEvals fuel _
+    (by rw [initBState_status]; decide) h
+  · rcases (osgaBody_evals env nm F eps miu lambda alphaMax kappaP kappa x0 _ _ _).2 hk with h1 | h1
+    · exact Or.inr (Or.inl h1)
+    · exact Or.inr (Or.inr ⟨k, h1⟩)
+  · exact Or.inl hk
+
+/-- the loop the driver runs (`nmLoopM`, private variables threaded) IS `nmLoop` with the body in its oracle slot: the
+    correspondence runs of the family `solvernm` exercise the very definitions the theorems above are about -/
+theorem modelled_loop_is_nmLoop {M : Type} (env : Env α) (body : Body α M) (m0 : M) (patience : Nat) (eps : α)
+    (maxEvals fuel : Nat) (b0 : BState α) :
+    (nmLoopM env body patience eps maxEvals fuel m0 1 b0.st.fcalls b0.st.gcalls b0).1 =
+      nmMinimize env body m0 patience eps maxEvals fuel b0 :=
+  (nmLoopM_eq env body m0 1 patience eps maxEvals fuel 0 _ _ b0).1
+
+end modelled
+
 /-! ### non-vacuity -/
 section examples
 
@@ -208,6 +537,81 @@ example : (nmLoop envZ2 (fun _ g _ => ⟨[([7], [0], 10)], true, none, g.1 + 1, 
 example : valueTest envZ2 3 ⟨b0Z.st, [(-1, 0)]⟩ = 1000000 := by decide
 example : valueTest envZ2 3 ⟨b0Z.st, [(-1, 0), (4, 2), (-3, 1)]⟩ = 4 := by decide
 example : valueTest envZ2 2 ⟨b0Z.st, [(-1, 0), (-1, 0), (4, 2)]⟩ = 0 := by decide
+
+/-! the modelled bodies over `Int` (`sqrt = id`, `pow a _ = a`, `tanh = exp = id`, machine epsilon 1) -/
+def nmZ : EnvNM Int := ⟨fun a _ => a, fun x => x, fun x => x, 1, 1, Int.ofNat⟩
+/-- `f(x) = x·x`, `∇f(x) = 2x` -/
+def fZ : Objective Int := fun x => (vdot x x, x.map (fun v => 2 * v))
+
+/-- sgm really moves and really hands evaluations over: from 5 the first step (λ = 1, g / ‖g‖ = 10 / 100 = 0 in `Int`) … -/
+example : (sgmMinimize envZ2 nmZ (fun _ => fZ) 1 3 1 100 50 [5]).st.fx = 25 := by decide
+/-- … the candidates never improve: `value_test(3)` becomes 0 after three calls and the status is `converged` (hypothesis of
+    `sgm_converged_only_by_test`, first disjunct), after 1 + 3 calls of the function -/
+example : (sgmMinimize envZ2 nmZ (fun _ => fZ) 1 3 1 100 50 [5]).st.status = Status.converged ∧
+    evals (sgmMinimize envZ2 nmZ (fun _ => fZ) 1 3 1 100 50 [5]).st = 8 := by decide
+/-- second disjunct: a start with a zero gradient stops in the first iteration without a call -/
+example : (sgmMinimize envZ2 nmZ (fun _ => fZ) 1 3 1 100 50 [0]).st.status = Status.converged ∧
+    evals (sgmMinimize envZ2 nmZ (fun _ => fZ) 1 3 1 100 50 [0]).st = 2 := by decide
+/-- the budget bound of `sgm_honest` is attained: `max_evals = 3` allows one iteration, the run ends with 4 = 3 + 2 - 1 evaluations -/
+example : evals (sgmMinimize envZ2 nmZ (fun _ => fZ) 1 10 1 3 50 [5]).st = 4 ∧
+    (sgmMinimize envZ2 nmZ (fun _ => fZ) 1 10 1 3 50 [5]).st.status = Status.max_iters := by decide
+/-- `f(x) = Σ x_i`, `∇f(x) = (1, …, 1)` -/
+def fLin : Objective Int := fun x => (vdot x (x.map (fun _ => 1)), x.map (fun _ => 1))
+/-- cocob on the linear function from 5 with `L0 = 1`: four iterations within `max_evals = 9`, every one improves, 10 = 9 + 2 - 1
+    evaluations -/
+example : (cocobMinimize envZ2 nmZ (fun _ => fLin) 1 3 1 9 50 [5]).st.fx = -3 ∧
+    evals (cocobMinimize envZ2 nmZ (fun _ => fLin) 1 3 1 9 50 [5]).st = 10 ∧
+    (cocobMinimize envZ2 nmZ (fun _ => fLin) 1 3 1 9 50 [5]).st.status = Status.max_iters := by decide
+/-- … and stagnation on `x·x` from 0: `converged` through `value_test` (hypothesis of `cocob_converged_only_by_test`) -/
+example : (cocobMinimize envZ2 nmZ (fun _ => fZ) 1 2 1 100 50 [0]).st.status = Status.converged := by decide
+/-- sda / wda (with `sqrt = 1`): improving steps on the linear function; a zero gradient at the start stops at once -/
+example : (pdsgmMinimize ⟨fun _ => true, fun _ => 1, -1000000, 1000000⟩ nmZ (fun _ => fLin) false 2 3 1 9 50 [5]).st.fx < 5 ∧
+    (pdsgmMinimize ⟨fun _ => true, fun _ => 1, -1000000, 1000000⟩ nmZ (fun _ => fLin) true 2 3 1 9 50 [5]).st.fx < 5 := by decide
+example : (pdsgmMinimize envZ2 nmZ (fun _ => fZ) false 2 3 1 100 50 [5]).st.status = Status.converged := by decide
+example : (pdsgmMinimize envZ2 nmZ (fun _ => fZ) true 2 3 1 100 50 [0]).st.status = Status.converged ∧
+    evals (pdsgmMinimize envZ2 nmZ (fun _ => fZ) true 2 3 1 100 50 [0]).st = 2 := by decide
+/-- pgm / dgm / fgm on the linear function from 5 with `L0 = 1`: the first trial is accepted (value 4), then stagnation and
+    `converged` through `value_test` (hypothesis of `…_converged_only_by_test`) -/
+example : (pgmMinimize envZ2 (fun _ => fLin) 1 10 3 1 100 50 [5]).st.fx = 4 ∧
+    (pgmMinimize envZ2 (fun _ => fLin) 1 10 3 1 100 50 [5]).st.status = Status.converged := by decide
+example : (dgmMinimize envZ2 (fun _ => fLin) 1 10 3 1 100 50 [5]).st.fx = 4 ∧
+    (dgmMinimize envZ2 (fun _ => fLin) 1 10 3 1 100 50 [5]).st.status = Status.converged := by decide
+example : (fgmMinimize envZ2 (fun _ => fLin) 1 10 3 1 100 50 [5]).st.fx = 4 ∧
+    (fgmMinimize envZ2 (fun _ => fLin) 1 10 3 1 100 50 [5]).st.status = Status.converged := by decide
+/-- pgm on `x·x` from 5: four rejected trials (M = 1, 2, 4, 8), the fifth is accepted: 2 + 2·5 evaluations with `max_evals = 3`;
+    with `lsearch_max_iters = 3` the line search fails after 3 trials: status `failed`, and the bound of `pgm_honest` is attained
+    (8 = 3 + 2·3 - 1) -/
+example : evals (pgmMinimize envZ2 (fun _ => fZ) 1 10 3 1 3 50 [5]).st = 12 ∧
+    (pgmMinimize envZ2 (fun _ => fZ) 1 10 3 1 3 50 [5]).st.status = Status.max_iters := by decide
+example : evals (pgmMinimize envZ2 (fun _ => fZ) 1 3 3 1 3 50 [5]).st = 8 ∧
+    (pgmMinimize envZ2 (fun _ => fZ) 1 3 3 1 3 50 [5]).st.status = Status.failed := by decide
+/-- dgm: a trial costs 3 evaluations (`vgrad(xk1, gxk1)` and the value-only `vgrad(yk)`), fgm: 4 -/
+example : evals (dgmMinimize envZ2 (fun _ => fLin) 1 10 3 1 3 50 [5]).st = 5 ∧
+    evals (fgmMinimize envZ2 (fun _ => fLin) 1 10 3 1 3 50 [5]).st = 6 ∧
+    evals (fgmMinimize envZ2 (fun _ => fZ) 1 3 3 1 3 50 [5]).st = 10 := by decide
+/-- asga2 / asga4 on the linear function from 5 (`L0 = 1`, `gamma1 = gamma2 = 1`, `miu = 0`, machine epsilon 0): the first iteration
+    improves to 4, then stagnation and `converged` through `value_test`; one trial costs 4 evaluations; with machine epsilon 1
+    the gradient test at the start returns the initial state at once with status `max_iters` -/
+example : (asga2Minimize envZ2 {nmZ with epsMach := 0} (fun _ => fLin) 0 1 1 1 10 3 1 100 50 [5]).st.fx = 4 ∧
+    (asga2Minimize envZ2 {nmZ with epsMach := 0} (fun _ => fLin) 0 1 1 1 10 3 1 100 50 [5]).st.status = Status.converged ∧
+    evals (asga2Minimize envZ2 {nmZ with epsMach := 0} (fun _ => fLin) 0 1 1 1 10 3 1 3 50 [5]).st = 6 := by decide
+example : (asga4Minimize envZ2 {nmZ with epsMach := 0} (fun _ => fLin) 0 1 1 1 10 3 1 100 50 [5]).st.fx = 4 ∧
+    (asga4Minimize envZ2 {nmZ with epsMach := 0} (fun _ => fLin) 0 1 1 1 10 3 1 100 50 [5]).st.status = Status.converged ∧
+    evals (asga4Minimize envZ2 {nmZ with epsMach := 0} (fun _ => fLin) 0 1 1 1 10 3 1 3 50 [5]).st = 6 := by decide
+example : (asga2Minimize envZ2 nmZ (fun _ => fLin) 0 1 1 1 10 3 1 100 50 [5]).st.status = Status.max_iters ∧
+    evals (asga2Minimize envZ2 nmZ (fun _ => fLin) 0 1 1 1 10 3 1 100 50 [5]).st = 2 := by decide
+/-- osga over `Int` (where `0.5 = 0` degenerates its formulas; the control flow is what the examples exercise): `converged` through
+    `eta_hat < epsilon` after one iteration of 3 evaluations; with a negative `epsilon` no test fires and the budget of 100 is
+    used up to 101 = 100 + 3 - 2 evaluations; a zero gradient at the start stops at once (`epsilon0 = 1`) -/
+example : (osgaMinimize envZ2 {nmZ with eps0 := 0} (fun _ => fZ) 0 1 1 1 1 3 1 100 50 [5]).st.status = Status.converged ∧
+    evals (osgaMinimize envZ2 {nmZ with eps0 := 0} (fun _ => fZ) 0 1 1 1 1 3 1 100 50 [5]).st = 5 := by decide
+example : (osgaMinimize envZ2 {nmZ with eps0 := 0} (fun _ => fZ) 0 1 1 1 1 3 (-100) 100 50 [5]).st.status = Status.max_iters ∧
+    evals (osgaMinimize envZ2 {nmZ with eps0 := 0} (fun _ => fZ) 0 1 1 1 1 3 (-100) 100 50 [5]).st = 101 := by decide
+example : (osgaMinimize envZ2 nmZ (fun _ => fZ) 0 1 1 1 1 3 1 100 50 [0]).st.status = Status.converged ∧
+    evals (osgaMinimize envZ2 nmZ (fun _ => fZ) 0 1 1 1 1 3 1 100 50 [0]).st = 2 := by decide
+/-- a non-finite value fails the run: `iter_ok = isfinite(f)` -/
+example : (sgmMinimize ⟨fun v => decide (v < 20), fun x => x, -1000000, 1000000⟩ nmZ (fun _ => fZ) 1 3 1 100 50 [5]).st.status
+    = Status.failed := by decide
 
 end examples
 
